@@ -65,6 +65,17 @@ theorem get_const_period_is_model (e : DExt κ α) (h3 : 3 ≤ e.shape.length) (
       .ok (constPeriod e.shp src dest) :=
   Src.get_const_period_eq e h3 h5 hsl src dest hs hd htab
 
+/-- **`meta_valid` as written in dcmmeta.py is the model's `metaValid`** (the header reads and the
+    comparison of the slice directions are the same parameters on both sides); slice dims in range,
+    and a fourth axis on both sides where `('vector', 'slices')` reads it -/
+theorem meta_valid_is_model (e : ExtGeom) (img : Img) (c : Cls)
+    (hisd : ∀ d, img.sliceDim = some d → d < img.shape.length)
+    (hesd : ∀ d, e.sliceDim = some d → d < e.shape.length)
+    (h4 : c = vslices → 3 < e.shape.length ∧ 3 < img.shape.length) :
+    Py.meta_valid img.shape e.shape img.sliceDim (e.sliceDim.map fun d => e.shape[d]!) img.aligned c =
+      .ok (metaValid e img c) :=
+  Src.meta_valid_eq e img c hisd hesd h4
+
 /-- the translator translated every function it is asked for -/
 theorem translator_complete : Gen.codeMissing = [] := rfl
 
